@@ -297,11 +297,20 @@ def make_strategy(symbol, script, ctx):
                 raise RuntimeError('scripted hook failure')
 
         # ---- decisions -----------------------------------------------------------------
+        def _gate_open(self):
+            # optional: the decision also depends on a non-sequential, window-start dependent indicator value (on-balance volume over
+            # what slice_candles keeps): whatever changes the indicator window changes the orders
+            if script.get('gate') != 'obv':
+                return True
+            import jesse.indicators as ta
+            v = ta.obv(self.candles)
+            return (not np.isfinite(v)) or int(abs(v)) % 3 != 0
+
         def should_long(self):
-            return self._row().get('act') == 'long'
+            return self._row().get('act') == 'long' and self._gate_open()
 
         def should_short(self):
-            return self._row().get('act') == 'short' and self.exchange_type == 'futures'
+            return self._row().get('act') == 'short' and self.exchange_type == 'futures' and self._gate_open()
 
         def should_cancel_entry(self):
             ans = bool(self._row().get('cancel', True))
@@ -334,7 +343,7 @@ def make_strategy(symbol, script, ctx):
             p = self._ref_price(r)
             pts = []
             for frac, off in r.get('entry', [[1, 0]]):
-                pts.append((unit * frac, _price(p, off if isinstance(off, dict) else sign * off, tick)))
+                pts.append((unit * float((self.hp or {}).get('mult', 1)) * frac, _price(p, off if isinstance(off, dict) else sign * off, tick)))
             shape = r.get('shape', 'list')
             if shape == 'tuple' and len(pts) == 1:
                 return pts[0]
@@ -468,7 +477,8 @@ def make_strategy(symbol, script, ctx):
             self._obs('terminate')
 
         def hyperparameters(self):
-            return script.get('hyperparameters', [])
+            # specs travel as JSON: the type of a hyperparameter may be given by name
+            return [dict(d, type={'float': float, 'int': int}.get(d.get('type'), d.get('type'))) for d in script.get('hyperparameters', [])]
 
         def dna(self):
             return script.get('dna', '')
